@@ -997,18 +997,26 @@ var rR23s = RuleRef{Name: "R23s", Doc: "per-connection selection: no code reacha
 	// NewManager: each slot is a fresh NewMemDb()
 	if nm := c.P.Func("server", "NewManager"); nm != nil {
 		fresh := false
+		shared := ""
 		for _, b := range nm.Blocks {
 			for _, in := range b.Instrs {
 				if st, ok := in.(*ssa.Store); ok {
 					if _, isIA := st.Addr.(*ssa.IndexAddr); isIA {
 						if call, ok := st.Val.(*ssa.Call); ok && callName(call) == "NewMemDb" && isLoopBody(b) {
 							fresh = true
+							// and the constructor gives the database shard tables of its own: the keyspace maps it stores
+							// into the new MemDb come from a constructor that allocates its table (not from one that
+							// shares the table of an existing map)
+							if why := c.sharedKeyspaceTables(callee(call)); why != "" {
+								fresh = false
+								shared = why
+							}
 						}
 					}
 				}
 			}
 		}
-		c.Add("R23s", fnName(nm), "every database slot receives its own NewMemDb() (no aliasing between numbered databases)", nm.Pos(), fresh, "the slot store must take a NewMemDb() result created inside the loop")
+		c.Add("R23s", fnName(nm), "every database slot receives its own NewMemDb() (no aliasing between numbered databases)", nm.Pos(), fresh, "the slot store must take a NewMemDb() result created inside the loop"+shared)
 	}
 }}
 
@@ -2065,4 +2073,67 @@ func (c *C) fieldAlwaysType(fa *ssa.FieldAddr, want types.Type) bool {
 	res = res && builders > 0
 	c.fatMemo[key] = res
 	return res
+}
+
+// sharedKeyspaceTables: the MemDb constructor ctor stores, into a keyspace field of the new MemDb, a map whose shard table
+// is not allocated for it. Returns a description, or "" when every keyspace map gets a table of its own.
+func (c *C) sharedKeyspaceTables(ctor *ssa.Function) string {
+	if ctor == nil || len(ctor.Blocks) == 0 || c.Facts.CMap == nil {
+		return ""
+	}
+	// does the map constructor g allocate the table it stores?
+	allocatesTable := func(g *ssa.Function) (bool, bool) {
+		stores, fresh := false, true
+		for _, b := range g.Blocks {
+			for _, in := range b.Instrs {
+				st, ok := in.(*ssa.Store)
+				if !ok {
+					continue
+				}
+				fa, ok := st.Addr.(*ssa.FieldAddr)
+				if !ok || !isNamed(fa.X.Type(), c.Facts.CMap) {
+					continue
+				}
+				if _, isSl := st.Val.Type().Underlying().(*types.Slice); !isSl {
+					continue
+				}
+				stores = true
+				ok2 := false
+				switch v := st.Val.(type) {
+				case *ssa.MakeSlice:
+					ok2 = true
+				case *ssa.Slice:
+					_, ok2 = v.X.(*ssa.Alloc)
+				}
+				if !ok2 {
+					fresh = false
+				}
+			}
+		}
+		return stores, fresh
+	}
+	for _, b := range ctor.Blocks {
+		for _, in := range b.Instrs {
+			st, ok := in.(*ssa.Store)
+			if !ok {
+				continue
+			}
+			fa, ok := st.Addr.(*ssa.FieldAddr)
+			if !ok || !isNamed(fa.X.Type(), c.Facts.MemDb) || !isNamed(st.Val.Type(), c.Facts.CMap) {
+				continue
+			}
+			call, ok := st.Val.(*ssa.Call)
+			if !ok {
+				return "; the keyspace map stored into " + fieldName(fa) + " is not made by a constructor call"
+			}
+			g := callee(call)
+			if g == nil || len(g.Blocks) == 0 {
+				return "; the constructor of " + fieldName(fa) + " cannot be resolved"
+			}
+			if stores, fresh := allocatesTable(g); stores && !fresh {
+				return "; " + fnName(g) + ", which makes " + fieldName(fa) + ", hands out a map over an existing shard table: the numbered databases share storage"
+			}
+		}
+	}
+	return ""
 }
